@@ -89,7 +89,7 @@ func main() {
 	if len(os.Args) >= 4 && os.Args[1] == "dumpjson" {
 		runtime.GOMAXPROCS(1)
 		runtime.LockOSThread()
-		d := dump.File(os.Args[2], dump.Options{MaxElems: 1 << 22})
+		d := dump.File(os.Args[2], dump.Options{MaxElems: 1 << 22, RetryIter: true})
 		b, _ := json.Marshal(d)
 		if err := os.WriteFile(os.Args[3], b, 0o644); err != nil {
 			fmt.Println(err)
